@@ -99,6 +99,30 @@ fn cross_of(n: &str) -> Type<PortableForm> {
     let field = scale_info::Field::<PortableForm>::new(name, ((ti + 1) as u32).into(), tn, vec![]);
     Type::new(scale_info::Path::from_segments_unchecked(vec!["m".to_string(), "Foo".to_string()]), vec![], scale_info::TypeDefComposite::new(vec![field]), docs)
 }
+/// Definitions with SEVERAL members under one path that agree on a prefix of their members and differ later (two
+/// versions of one struct, of one enum): a comparison that stops at the first equal pair conflates them.
+fn multi_of(n: &str) -> Type<PortableForm> {
+    use scale_info::{Field, TypeDefComposite, TypeDefVariant, Variant};
+    let k = idx(n) as usize;
+    let f = |name: &str, ty: u32| Field::<PortableForm>::new(Some(name.to_string()), ty.into(), None, vec![]);
+    let path = scale_info::Path::from_segments_unchecked(vec!["m".to_string(), "Multi".to_string()]);
+    let docs = if k >= 10 { vec![n.to_string()] } else { vec![] };
+    let composite = |fs: Vec<Field<PortableForm>>| Type::new(path.clone(), vec![], TypeDefComposite::new(fs), docs.clone());
+    match k % 10 {
+        0 => composite(vec![f("a", 1), f("b", 2)]),
+        1 => composite(vec![f("a", 1), f("b", 3)]),                    // second member's type differs
+        2 => composite(vec![f("a", 1), f("c", 2)]),                    // second member's name differs
+        3 => composite(vec![f("a", 1), f("b", 2), f("c", 3)]),         // one member more
+        4 => composite(vec![f("a", 1), f("b", 2), f("c", 4)]),         // third member differs
+        5 => composite(vec![f("z", 1), f("b", 2)]),                    // first member differs
+        6 | 7 | 8 => {
+            let last = [Variant::new("B".to_string(), vec![f("x", 1)], 1, vec![]), Variant::new("B".to_string(), vec![f("x", 2)], 1, vec![]),
+                        Variant::new("C".to_string(), vec![f("x", 1)], 1, vec![])][k % 10 - 6].clone();
+            Type::new(path.clone(), vec![], TypeDefVariant::new(vec![Variant::new("A".to_string(), vec![], 0, vec![]), last]), docs.clone())
+        }
+        _ => Type::new(path.clone(), vec![], TypeDefTuple::<PortableForm>::new_portable(vec![1.into(), 2.into(), ((k / 10) as u32 + 3).into()]), docs.clone()),
+    }
+}
 fn body_of(n: &str) -> Type<PortableForm> {
     use scale_info::{TypeDefArray, TypeDefBitSequence, TypeDefCompact, TypeDefVariant, Variant};
     let u = UNIVERSE.load(std::sync::atomic::Ordering::SeqCst);
@@ -107,6 +131,9 @@ fn body_of(n: &str) -> Type<PortableForm> {
     }
     if u == 3 {
         return cross_of(n);
+    }
+    if u == 4 {
+        return multi_of(n);
     }
     let k = idx(n);
     let kind = if u == 2 { (k + 4) % 8 } else { k % 8 };
@@ -267,8 +294,8 @@ fn record(seed: u64, walks: usize, len: usize, path: &str) {
     let mut out = Out::create(path);
     let names: Vec<String> = (0..96).map(|i| format!("v{i}")).collect();
     for w in 0..walks {
-        let kind = ["string", "rev", "body", "builder", "body", "builder", "body", "builder"][w % 8];
-        set_universe(if w % 8 >= 6 { 3 } else if w % 8 >= 4 { 1 } else { 0 }); // Type-valued walks alternate between one body per kind and near misses
+        let kind = ["string", "rev", "body", "builder", "body", "builder", "body", "builder", "body", "builder"][w % 10];
+        set_universe(if w % 10 >= 8 { 4 } else if w % 10 >= 6 { 3 } else if w % 10 >= 4 { 1 } else { 0 }); // Type-valued walks alternate between one body per kind and near misses
         out.put(&json!({"ev": "reset", "kind": kind}));
         let don_s = donor::<String>();
         let don_r = donor::<Rev>();
@@ -376,9 +403,9 @@ fn main() {
             for (i, t) in ts.iter().enumerate() {
                 replay_interner::<String>("string", i, t, &mut out, &mut bad, &mut n);
                 replay_interner::<Rev>("rev", i, t, &mut out, &mut bad, &mut n);
-                for u in [0usize, 1, 2, 3] {
+                for u in [0usize, 1, 2, 3, 4] {
                     set_universe(u);
-                    replay_interner::<Body>(["body", "body/near", "body/kinds", "body/cross"][u], i, t, &mut out, &mut bad, &mut n);
+                    replay_interner::<Body>(["body", "body/near", "body/kinds", "body/cross", "body/multi"][u], i, t, &mut out, &mut bad, &mut n);
                     replay_builder(i, t, &mut out, &mut bad, &mut n);
                 }
                 set_universe(0);
